@@ -65,11 +65,13 @@ def cases(tier, rng):
         line = "c05r %s 3" % sec
         cs.append({"line": line, "key": line, "model": False, "tags": {"carrier": "udp-secret-reconnect", "ssecret": sec, "csecret": sec}})
     # a UDP endpoint protected by a shared secret: equal and different secrets, one side without
-    secrets = ["none", "abc", "abd", "ABC", "ab", "abcd", "p%40ss%3Aword", "x" * 40]
+    # (blue+green / blue%20green and R%2541t / RAt differ as written and as decoded once; they would only meet if decoded twice)
+    secrets = ["none", "abc", "abd", "ABC", "ab", "abcd", "p%40ss%3Aword", "x" * 40, "blue+green", "blue%20green", "R%2541t", "RAt"]
     if tier == "thorough":
         secrets += ["k%d" % rng.below(10 ** 9) for _ in range(4)]   # (a bare number would be read as an integer token, not as a word)
     quick_pairs = {("none", "none"), ("abc", "abc"), ("abc", "abd"), ("abc", "ABC"), ("abc", "none"), ("none", "abc"), ("ab", "abc"),
-                   ("p%40ss%3Aword", "p%40ss%3Aword"), ("x" * 40, "x" * 40)}
+                   ("p%40ss%3Aword", "p%40ss%3Aword"), ("x" * 40, "x" * 40), ("blue+green", "blue%20green"), ("blue+green", "blue+green"),
+                   ("R%2541t", "RAt"), ("RAt", "R%2541t")}
     for a in secrets:
         for b in secrets:
             if tier != "thorough" and (a, b) not in quick_pairs:
